@@ -12,10 +12,12 @@ LEVEL_TEXT = ("Theorems in Coq, for every event sequence / configuration / execu
               "the executor's answer at its call's own position in that request; nothing is left waiting after Close or with "
               "linger 0. the same holds with the retry loop of doRequestWithRetries explicit, for every attempt script (any number of "
               "attempts, any chunking of a read stream, partial delivery before a retriable failure): the answer is that of the "
-              "last attempt only. batcher shutdown at goroutine granularity (Add = closed-check + channel send, Run's receive / timer / close branch "
-              "with its drain loop, Close; any queue capacity): under every interleaving nobody completes twice, and everybody "
-              "completes exactly once when no Add is between its check and its send at the moment of Close (the remaining overlap "
-              "loses the call: refuted by witness and observed on the real batcher). (2) write stream: every successful completion pairs the "
+              "last attempt only. batcher shutdown at goroutine granularity (Add = increment of the adding counter, closed-check, channel send or failCall, "
+              "decrement; Run's receive / timer / close branch with its drain loop; Close; any queue capacity): under every "
+              "interleaving nobody completes twice, and -- with the drain rule of the fixed code (Run returns only when it reads "
+              "adding == 0) -- every call whose Add started has completed exactly once when Run and every Add have returned, with no "
+              "hypothesis on the interleaving; refuted by witness for the drain rule of the code as found (lost call, reproduced, "
+              "fixed by cb6e33f), the no-overlap version kept as partial. (2) write stream: every successful completion pairs the "
               "i-th successfully sent request with the i-th response received, for one i -- also when callers abandon "
               "requests that are on the wire (per-request timeout or cancellation: the future keeps its place in the FIFO "
               "and swallows its own late response); every Send returns exactly once; no panic (after the fix; refuted for "
@@ -56,7 +58,7 @@ RULE = ("batch: event lists (Call/Tick/Close) x configurations (write/read, ling
         "errors/not-found/OK mixes, secondary-index gets (answers carry primary and secondary key), answers whose primary or secondary key equals the search key, partial arrivals, every arrival order of one answer set for <= 4 shards, random callback order, observations per arrival, non-trivial = 2+ shards; "
         "shutdown: real batcher with a parked executor, queue filled to capacity, late Adds parked in the send (seen in the "
         "goroutine dump), Close before / after the fill / after the parking, Adds after Close; the same through the real client in a "
-        "child process; an unforced stress of 8 Adds racing Close (lost calls counted as an observation, double completions are a verdict); "
+        "child process; an unforced stress of 8 and of 32 Adds racing Close (12000 + 2000 iterations per quick run; a call without completion after every Add has returned and Run's goroutine is gone, or completed twice, is a verdict; the window between Add's check and its send cannot be forced from outside); "
         "list / scan (through clientImpl.List / RangeScan): 1..5 shards whose streams end with EOF, an opaque error or any "
         "gRPC status (Canceled, Unknown, DeadlineExceeded, Internal, Unavailable, oxia codes 100..108) after 0..k items, keys from "
         "the comparer-stressing alphabet; wsend: write batch retry loop over the real stream wrapper, attempts = connection "
